@@ -10,7 +10,7 @@ RULE = ('Evaluation = one table row (slice/group/layer) recounted from the per-h
         'scenes that differ only in the count the okta never decreases. Workloads: generated multi-ceilometer '
         'scenes with multi-hit measurements, and ALL (count, total) pairs up to a bound for one flat layer x '
         'MAX_HITS_OKTA0 in {0,1,3} x MAX_HOLES_OKTA8 in {0,1,2} with uneven sampling over 1-3 ceilometers and '
-        'optional double hits of one measurement. Non-trivial = row with >=2 member rows; distinct = hash of '
+        'optional double hits of one measurement, instrument names equal up to blanks / case sharing time stamps; the total is also recounted from the INPUT rows (documented crop applied); generated scenes include measurements reporting one hit type twice. Non-trivial = row with >=2 member rows; distinct = hash of '
         '(rows, parameters, which, set id).')
 ASSUMPTIONS = ['membership of a hit in a set is read from the per-hit id columns of CeiloChunk.data',
                'exact half-okta ties accept both neighbours (documentation and numpy rounding disagree there)']
@@ -26,7 +26,7 @@ def plan(tier, seed):
     out = []
     for i in range(SIZES[tier]):
         out.append({'fam': 'generic', 's': seed, 'p': NUM, 'i': i,
-                    'k': {'big': i % 9 == 0, 'rich': i % 2 == 0}})
+                    'k': {'big': i % 9 == 0, 'rich': i % 2 == 0, 'anom': i % 3 == 1}})
     nref = 17 * (2 if tier == 'quick' else 24)
     for i in range(nref):        # real-world reference scenes of the repository (perturbed), random parameters
         out.append({'fam': 'refdata', 's': seed, 'p': NUM, 'i': 700000 + i,
@@ -49,11 +49,16 @@ def weight(d):
 def ct_scene(rng, T, c, nce, double):
     """T measurements spread unevenly over nce ceilometers; c of them see the layer at ~1000 ft;
     `double` of those hold two hits of the layer (types 1 and 2)."""
-    names = ['c%d' % i for i in range(nce)]
+    # names: plain / equal up to blanks / equal up to case
+    names = [['c0', 'c1', 'c2'], ['CL31', 'CL31 ', ' CL31'], ['rwy', 'RWY', 'Rwy']][T % 3][:nce]
     meas = []
     for m in range(T):
         ci = 0 if nce == 1 else int(min(nce - 1, (m * m) % (nce + 1)))   # uneven split
-        meas.append((names[ci], -float(m) * 15.0 - ci * 0.5 if m % 3 else -float(m) * 15.0))
+        # with several instruments, consecutive measurements share their time stamp (T even) or every third does
+        if nce > 1 and (T % 2 == 0 or m % 3 == 0):
+            meas.append((names[ci], -float(m // 2) * 30.0))
+        else:
+            meas.append((names[ci], -float(m) * 15.0 - ci * 0.5))
     meas = list(dict.fromkeys(meas))
     k = 0
     while len(meas) < T:                      # coincident stamps collapsed: top up
@@ -160,6 +165,12 @@ def check(desc):
     viol, tags = [], set()
     e, nt = oracles.check_counts(run.chunk, viol, tags)
     res['evals'] = e
+    # the total is the number of distinct (ceilometer, time) measurements of the *input* (documented crop applied)
+    rows_in, _ = oracles.expected_crop(scenes.frame(case['scene']), obs.effective(case['prm']))
+    tot_in = len({(r[0], r[1]) for r in rows_in})
+    if tot_in != run.chunk.max_hits_per_layer:
+        oracles.V(viol, 'C03', 'total number of measurements != distinct (ceilo, dt) of the input', expected=tot_in,
+                  got=int(run.chunk.max_hits_per_layer))
     d = run.chunk.data
     for w in obs.WHICH:
         for cid, n in zip(*np.unique(d[w[:-1] + '_id'].to_numpy().astype(int), return_counts=True)):
